@@ -17,7 +17,8 @@ type cstep struct {
 	present string
 	cookie  string
 	ops     []op
-	conn    int // 1, 2: serve on that reused RequestCtx ("connection"); 0: a fresh one
+	conn    int    // 1, 2: serve on that reused RequestCtx ("connection"); 0: a fresh one
+	fault   string // "get-first" / "get-outage": Storage.Get fails during this request (vstore only)
 }
 
 func (h *hist) resolve(ci int, ref string) string {
@@ -70,7 +71,7 @@ func runFixed(e *ev.Env, c *ev.Case, cfg cfgT, nclients int, steps []cstep) *his
 			}
 		}
 		h.nextConn = s.conn
-		rq := &request{Client: s.client, MW: s.mw, Presented: h.resolve(s.client, s.present), Class: "scripted", Cookie: h.resolve(s.client, s.cookie)}
+		rq := &request{Client: s.client, MW: s.mw, Presented: h.resolve(s.client, s.present), Class: "scripted", Cookie: h.resolve(s.client, s.cookie), Fault: s.fault}
 		if s.present == "" {
 			rq.Class = "none"
 		}
@@ -289,6 +290,31 @@ func corpus(e *ev.Env) {
 				})
 			})
 		}
+	}
+	// storage read errors: no adoption of a presented id, no loss of saved data
+	for _, src := range [][2]string{{"cookie", "sid"}, {"header", "X-Session-Id"}, {"query", "sid"}} {
+		src := src
+		e.Corpus("storage-read-error-"+src[0], func(c *ev.Case) {
+			cfg := cfgT{Source: src[0], Name: src[1], VStore: true, Idle: 5 * sec, Abs: 9 * sec}
+			for _, fault := range []string{"get-first", "get-outage"} {
+				for _, mw := range []bool{false, true} {
+					fin := func(ops ...op) []op {
+						if !mw {
+							ops = append(ops, k("save"))
+						}
+						return ops
+					}
+					runFixed(e, c, cfg, 2, []cstep{
+						{client: 0, mw: mw, ops: fin(set("k0", "v0.1"), set("k1", "v0.2"))},
+						{client: 0, mw: mw, present: "@jar", fault: fault, ops: fin(set("k1", "v0.3"))},
+						{client: 0, mw: mw, present: "@jar", ops: fin(get("k0"), get("k1"))},
+						{client: 1, mw: mw, present: "id-chosen-by-the-client", fault: fault, ops: fin(set("k0", "v1.1"))},
+						{client: 1, mw: mw, present: "id-chosen-by-the-client", ops: fin(get("k0"))},
+						{client: 0, mw: !mw, present: "@first", ops: []op{get("k0"), get("k1"), {K: "byid", Tgt: "@first"}}},
+					})
+				}
+			}
+		})
 	}
 	// FINDING (header source): the cookie of the same name is consulted first
 	for _, src := range [][2]string{{"header", "X-Session-Id"}} {
